@@ -48,7 +48,7 @@ def reset_ids(seed):
 
 # ---------------------------------------------------------------------------------------------- the slow node
 class SimItem:
-    __slots__ = ("uid", "lo", "hi", "final", "plan", "i", "calls", "reads", "stats")
+    # an ordinary object on purpose (no __slots__): hashable, weakly referenceable, attributes can be attached
 
     def __init__(self, uid, lo, hi, final, plan, stats):
         assert lo <= final <= hi
